@@ -208,6 +208,9 @@ class FCtx(object):
                             first = ("param", selfname)
                             via_super = True
                             break
+            if target is not None and target.cls is None and not via_super \
+                    and any(q.count(".") == 1 and q.split(".")[1] == target.node.name for q in KNOWN_FUNCS):
+                return None          # a module-level function the rules know, moved to another module
             if target is None or (target.qname in KNOWN_FUNCS and not via_super) or target.node is fref.node or generator(target.node):
                 return None
             if target.node.decorator_list and any((dotted(d) or "") not in ("staticmethod",) for d in target.node.decorator_list):
